@@ -611,6 +611,7 @@ package jen
 //@   ensures [C14] self: result == s
 //@   ensures [C14] once: calls[f] == old(calls[f]) + 1
 //@   ensures [C02] unfold(treeOK) tree: treeOK()
+//@   ensures [C14] arg: cbarg(f, calls[f], 0) == s
 
 //@ func (*Statement).LitFunc [C02,C14,C11,C09]
 //@   requires unfold(treeOK) tree: treeOK()
@@ -649,6 +650,7 @@ package jen
 //@       && C_pGroup_v((*s)[len(*s) - 1]).name == "custom" && C_pGroup_v((*s)[len(*s) - 1]).open == options.Open && C_pGroup_v((*s)[len(*s) - 1]).close == options.Close
 //@       && C_pGroup_v((*s)[len(*s) - 1]).separator == options.Separator && C_pGroup_v((*s)[len(*s) - 1]).multi == options.Multi
 //@   ensures [C02] unfold(treeOK) tree: treeOK()
+//@   ensures [C14] arg: len(*s) >= 1 && cbarg(f, calls[f], 0) == C_pGroup_v((*s)[len(*s) - 1])
 
 //@ func DictFunc [C02,C14,C16,C09]
 //@   requires unfold(treeOK) tree: treeOK()
@@ -656,3 +658,4 @@ package jen
 //@   ensures [C14] once: calls[f] == old(calls[f]) + 1
 //@   ensures [C14] fresh: fresh(result)
 //@   ensures [C02] unfold(treeOK) tree: treeOK()
+//@   ensures [C14,C16] arg: cbarg(f, calls[f], 0) == result
